@@ -154,7 +154,7 @@ namespace CDNS {
          */
         void rotate_output(const boost::any& value) override {
             if (value.type() != typeid(std::string))
-                return;
+                throw CborOutputException("Output opened with a file name can only be rotated to a file name (std::string)!");
 
             close();
             m_value = boost::any_cast<std::string>(value);
@@ -240,7 +240,7 @@ namespace CDNS {
          */
         void rotate_output(const boost::any& value) override {
             if (value.type() != typeid(int))
-                return;
+                throw CborOutputException("Output opened with a file descriptor can only be rotated to a file descriptor (int)!");
 
             close();
             m_value = boost::any_cast<int>(value);
